@@ -378,8 +378,15 @@ class FileSaver(strax.Saver):
             )
 
         for fn in sorted(glob.glob(self.tempdirname + "/metadata_*.json")):
-            with open(fn, mode="r") as f:
-                self.md["chunks"].append(json.load(f))
+            try:
+                with open(fn, mode="r") as f:
+                    self.md["chunks"].append(json.load(f))
+            except ValueError:
+                if "exception" not in self.md:
+                    raise
+                # We are closing after a failure (e.g. the write of this very
+                # file failed): do not replace the original error by a
+                # complaint about the half-written chunk metadata.
             os.remove(fn)
 
         self._flush_metadata()
